@@ -66,6 +66,24 @@ theorem write_layout_now (n item : Nat) :
     have hk : (((n : Int) + 7) / 8 * 8 - (n : Int)) = (((n + 7) / 8 * 8 - n : Nat) : Int) := by omega
     rw [hk, ← Nat.cast_mul, Int.toNat_natCast]
 
+/-- the two level-block layouts of `make_definitions`, as the code has them NOW: an RLE run `varint(n << 1)` with value byte 1
+    when the page has no null, a bit-packed run `varint(len(out) << 1 | 1)` otherwise, a 4-byte length prefix in v1 -/
+theorem def_layout_now (n : Nat) :
+    (PqV.Gen.WriteLayout.defRleHeader n).toNat = n * 2 ∧ PqV.Gen.WriteLayout.defRleValue.toNat = 1 ∧
+    (PqV.Gen.WriteLayout.defBpHeader n).toNat = n * 2 + 1 ∧ PqV.Gen.WriteLayout.defPrefixBytes = 4 := by
+  refine ⟨?_, by decide, ?_, by decide⟩
+  · simp only [PqV.Gen.WriteLayout.defRleHeader]; omega
+  · simp only [PqV.Gen.WriteLayout.defBpHeader]; omega
+
+theorem writerDefBody_eq (bits : List Nat) :
+    writerDefBody bits = if bits.all (· == 1) then uvarintEnc (bits.length * 2) ++ [1]
+      else uvarintEnc ((writerPackBools bits).length * 2 + 1) ++ writerPackBools bits := by
+  simp only [writerDefBody, (def_layout_now bits.length).1, (def_layout_now 0).2.1, (def_layout_now (writerPackBools bits).length).2.2.1]
+
+theorem writerDefBlock_eq (v2 : Bool) (bits : List Nat) :
+    writerDefBlock v2 bits = if v2 then writerDefBody bits else leBytes 4 (writerDefBody bits).length ++ writerDefBody bits := by
+  simp only [writerDefBlock, (def_layout_now 0).2.2.2]
+
 theorem writerDictData_eq (item : Nat) (codes : List Nat) :
     writerDictData item codes = [item * 8] ++ uvarintEnc ((codes.length + 7) / 8 * 2 + 1) ++ codes.flatMap (leBytes item)
       ++ List.replicate (((codes.length + 7) / 8 * 8 - codes.length) * item) 0 := by
@@ -109,7 +127,7 @@ theorem dictRun_wf (item : Nat) (codes : List Nat) (h : ∀ v ∈ codes, v < 256
 theorem writerDefBody_runs (bits : List Nat) (hb : ∀ v ∈ bits, v < 2) :
     ∃ rs : List Run, writerDefBody bits = encodeRuns 1 rs ∧ (∀ r ∈ rs, r.wf 1 = true) ∧
       bits.length ≤ (rs.flatMap Run.values).length ∧ (rs.flatMap Run.values).take bits.length = bits := by
-  unfold writerDefBody
+  rw [writerDefBody_eq]
   by_cases hall : bits.all (· == 1) = true
   · refine ⟨[Run.rle bits.length 1], ?_, ?_, ?_, ?_⟩
     · simp [hall, encodeRuns, encodeRun, leBytes]
@@ -395,7 +413,7 @@ theorem levels_v1 (c : ColSpec) (hv : c.v2 = false) (cells : List Cell) (rest : 
     levelsLooseV1 (leafOf c).maxDef cells.length (writerLevels c cells ++ rest) = 0 := by
   unfold writerLevels levelsOf leafOf
   by_cases h : c.hasNulls = true
-  · simp only [h, if_true, writerDefBlock, hv, Bool.false_eq_true, if_false]
+  · simp only [h, if_true, writerDefBlock_eq, hv, Bool.false_eq_true, if_false]
     obtain ⟨rs, hrs, hwf, hn, htake⟩ := writerDefBody_runs (notNullBits cells) (notNullBits_lt cells)
     have hw : widthFor 1 = 1 := by decide
     rw [notNullBits_length] at hn htake
@@ -425,7 +443,7 @@ theorem levels_v2 (c : ColSpec) (hv : c.v2 = true) (cells : List Cell) :
     ((leafOf c).maxDef = 0 ∨ hybridTight (widthFor (leafOf c).maxDef) cells.length (writerLevels c cells) = true) := by
   unfold writerLevels levelsOf leafOf
   by_cases h : c.hasNulls = true
-  · simp only [h, if_true, writerDefBlock, hv]
+  · simp only [h, if_true, writerDefBlock_eq, hv]
     obtain ⟨rs, hrs, hwf, hn, htake⟩ := writerDefBody_runs (notNullBits cells) (notNullBits_lt cells)
     have hw : widthFor 1 = 1 := by decide
     rw [notNullBits_length] at hn htake
